@@ -110,6 +110,18 @@ Retransmit(c, dir, a, b) ==
     /\ used' = [used EXCEPT !.dup = @ + 1]
     /\ UNCHANGED <<conns, st, hist>>
 
+\* a retransmitted SYN (side 1) or SYN+ACK (side 2) recorded when the connection is established and that side has already sent
+\* data: the copy carries nothing and starts nothing
+RetransmitSyn(c, dir) ==
+    /\ Established(c) /\ conns[c].hs
+    /\ used.dup < MaxDup
+    /\ Len(wire) < MaxPkts
+    /\ sent[c][dir] >= 1
+    /\ wire' = Append(wire, Pkt(c, dir, IF dir = 1 THEN "syn" ELSE "synack", 1, 0, ndg, 1, 1))
+    /\ ndg' = ndg + 1
+    /\ used' = [used EXCEPT !.dup = @ + 1]
+    /\ UNCHANGED <<conns, sent, lost, st, hist>>
+
 Fin(c, dir) ==
     /\ Established(c) /\ ~st[c].fin[dir]
     /\ used.fin < MaxFin
@@ -144,9 +156,10 @@ SwapAdjacent ==
 DoHandshake  == \E c \in DOMAIN conns : Handshake(c)
 DoSegment    == \E c \in DOMAIN conns, dir \in 1 .. 2, to \in 1 .. MaxTok : Segment(c, dir, to)
 DoRetransmit == \E c \in DOMAIN conns, dir \in 1 .. 2, a, b \in 1 .. MaxTok : Retransmit(c, dir, a, b)
+DoRetransmitSyn == \E c \in DOMAIN conns, dir \in 1 .. 2 : RetransmitSyn(c, dir)
 DoFin        == \E c \in DOMAIN conns, dir \in 1 .. 2 : Fin(c, dir)
 DoFinAck     == \E c \in DOMAIN conns, dir \in 1 .. 2 : FinAck(c, dir)
-Next == Open \/ DoHandshake \/ DoSegment \/ DoRetransmit \/ DoFin \/ DoFinAck \/ SwapAdjacent
+Next == Open \/ DoHandshake \/ DoSegment \/ DoRetransmit \/ DoRetransmitSyn \/ DoFin \/ DoFinAck \/ SwapAdjacent
 
 Spec == Init /\ [][Next]_vars
 
